@@ -227,9 +227,11 @@ func validateFromStdin(cmd *cobra.Command) error {
 		return err
 	}
 
-	// Update result to show "stdin" instead of temp file path
-	// The validation has already output results with temp file path
-	// Different output formats are handled below
+	// Report the input as "stdin" instead of the (already removed) temporary file:
+	// the machine-readable reports below must name the input that failed
+	for i := range result.Files {
+		result.Files[i].Path = "stdin"
+	}
 
 	// Handle different output formats
 	switch validateOutputFormat {
